@@ -2,11 +2,14 @@
      C:<caps> R:<read caps> O:<op status> F:<get-page failure status> S:<0|1 sys present>
      M<i>=<addr>:<endoff>:<meth>,...    map i built by addrxlat_map_set calls ("M<i>=" empty map)
      T<slot>=N | B | U:<st>:<as>:<key> | L:<tas>:<off> | P:<tas>:<ras>:<raddr>:<64|32>:<mask>:<f0>.<f1>..|-
+              | X:<tas>:<ras>:<raddr>:<mask>:<pte format number>:<f0>.<f1>..|-      (any PTE format)
               | K:<tas>:<endoff>:<o>.<d>,..|- | A:<tas>:<bas>:<baddr>:<shift>:<elemsz>:<valsz>
-     G:<as>:<page>  W:<as>:<addr>:<val>
+     G:<as>:<page>  W:<as>:<addr>:<val>  E:<as>:<page> (page reported big-endian)
+     B:<as>:<as'>   (the get-page callback serves <as> by addrxlat_fulladdr_conv to <as'>)
      Q:<as>:<addr> (addrxlat_op)   V:<as>:<addr>:<target as> (addrxlat_fulladdr_conv)
    all numbers hex, signed where the C type is.  Output, per query, joined by ';':
      st=<status> n=<operation calls> a=<as>:<addr>|- d=<nesting depth>   or UB / FUEL
+   All queries of a line run on one context: the read cache persists between them.
    spec mode ("sysop-spec"): the same line followed by " | " and the implementation's
    output; prints "ok" or the failed clause per query. *)
 open Util
@@ -17,14 +20,27 @@ type query = Q of fulladdr | V of fulladdr * BinNums.coq_Z
 type case = {
   mutable caps : BinNums.coq_N; mutable rcaps : BinNums.coq_N;
   mutable opret : BinNums.coq_Z; mutable failst : BinNums.coq_Z; mutable sysp : bool;
-  maps : (BinNums.coq_N * BinNums.coq_N * BinNums.coq_Z) list option array;
+  maps : ((BinNums.coq_N * BinNums.coq_N) * BinNums.coq_Z) list option array;
   meths : coq_method array;
-  mutable pages : (BinNums.coq_Z * BinNums.coq_N) list;
-  mutable words : ((BinNums.coq_Z * BinNums.coq_N) * BinNums.coq_N) list;
+  mutable pages : (BinNums.coq_N * BinNums.coq_N) list;
+  mutable words : ((BinNums.coq_N * BinNums.coq_N) * BinNums.coq_N) list;
+  mutable bigs : (BinNums.coq_N * BinNums.coq_N) list;
+  mutable backing : (BinNums.coq_N * BinNums.coq_N) list;
   mutable queries : query list }
 
 let after_eq s = let i = String.index s '=' in String.sub s (i + 1) (String.length s - i - 1)
 let list_or_empty sep s = if s = "-" || s = "" then [] else split_on sep s
+
+let aspace_of s : Step.aspace =
+  match s with "0" -> Step.KPHYSADDR | "1" -> Step.MACHPHYSADDR | "2" -> Step.KVADDR | _ -> Step.NOADDR
+
+let ptefmt_of s : Step.ptefmt =
+  match int_of_string ("0x" ^ s) with
+  | 0 -> Step.PTE_NONE | 1 -> Step.PTE_PFN32 | 2 -> Step.PTE_PFN64 | 3 -> Step.PTE_AARCH64
+  | 4 -> Step.PTE_IA32 | 5 -> Step.PTE_IA32_PAE | 6 -> Step.PTE_X86_64 | 7 -> Step.PTE_S390X
+  | 8 -> Step.PTE_PPC64_LINUX_RPN30 | 9 -> Step.PTE_AARCH64_LPA | 10 -> Step.PTE_AARCH64_LPA2
+  | 11 -> Step.PTE_ARM | 12 -> Step.PTE_RISCV32 | 13 -> Step.PTE_RISCV64
+  | _ -> failwith "bad pte format"
 
 let parse_meth (s : string) : coq_method =
   match split_on ':' s with
@@ -35,6 +51,10 @@ let parse_meth (s : string) : coq_method =
   | ["P"; tas; ras; raddr; w; mask; fl] ->
       MPgt (z_of_hex tas, { fa_addr = n_of_hex raddr; fa_as = z_of_hex ras }, (w = "64"),
             n_of_hex mask, Stdlib.List.map n_of_hex (list_or_empty '.' fl))
+  | ["X"; tas; ras; raddr; mask; fmt; fl] ->
+      MPgtF (aspace_of tas, aspace_of ras, n_of_hex raddr, n_of_hex mask,
+             { Step.pte_format = ptefmt_of fmt;
+               Step.fieldsz = Stdlib.List.map n_of_hex (list_or_empty '.' fl) })
   | ["K"; tas; eo; tbl] ->
       MLookup (z_of_hex tas, n_of_hex eo,
                Stdlib.List.map (fun p -> match split_on '.' p with
@@ -45,10 +65,12 @@ let parse_meth (s : string) : coq_method =
                n_of_hex sh, n_of_hex esz, n_of_hex vsz)
   | _ -> failwith ("bad method " ^ s)
 
+let page_of p = BinNat.N.ldiff (n_of_hex p) (n_of_hex "fff")
+
 let parse_case (line : string) : case =
   let c = { caps = N0; rcaps = N0; opret = Z0; failst = Z0; sysp = true;
             maps = Array.make 5 None; meths = Array.make 16 MNone;
-            pages = []; words = []; queries = [] } in
+            pages = []; words = []; bigs = []; backing = []; queries = [] } in
   Stdlib.List.iter (fun tok ->
     match tok.[0] with
     | 'C' -> c.caps <- n_of_hex (String.sub tok 2 (String.length tok - 2))
@@ -60,20 +82,22 @@ let parse_case (line : string) : case =
         let i = Char.code tok.[1] - 48 in
         c.maps.(i) <- Some (Stdlib.List.map (fun r -> match split_on ':' r with
           | [a; e; m] -> ((n_of_hex a, n_of_hex e), z_of_hex m) | _ -> failwith "bad set")
-          (list_or_empty ',' (after_eq tok))
-          |> Stdlib.List.map (fun ((a, e), m) -> (a, e, m)))
+          (list_or_empty ',' (after_eq tok)))
     | 'T' ->
         let i = String.index tok '=' in
         let slot = int_of_string ("0x" ^ String.sub tok 1 (i - 1)) in
         c.meths.(slot) <- parse_meth (after_eq tok)
     | 'G' -> (match split_on ':' tok with
-        | [_; a; p] -> c.pages <- (z_of_hex a, n_of_hex p) :: c.pages | _ -> failwith "bad G")
+        | [_; a; p] -> c.pages <- (n_of_hex a, page_of p) :: c.pages | _ -> failwith "bad G")
+    | 'E' -> (match split_on ':' tok with
+        | [_; a; p] -> c.bigs <- (n_of_hex a, page_of p) :: c.bigs | _ -> failwith "bad E")
+    | 'B' -> (match split_on ':' tok with
+        | [_; a; b] -> c.backing <- c.backing @ [(n_of_hex a, n_of_hex b)] | _ -> failwith "bad B")
     | 'W' -> (match split_on ':' tok with
         | [_; a; p; v] ->
             (* a word makes its page present (as in the C driver) *)
-            let pg = BinNat.N.ldiff (n_of_hex p) (n_of_hex "fff") in
-            c.pages <- (z_of_hex a, pg) :: c.pages;
-            c.words <- ((z_of_hex a, n_of_hex p), n_of_hex v) :: c.words
+            c.pages <- (n_of_hex a, page_of p) :: c.pages;
+            c.words <- ((n_of_hex a, n_of_hex p), n_of_hex v) :: c.words
         | _ -> failwith "bad W")
     | 'Q' -> (match split_on ':' tok with
         | [_; a; p] -> c.queries <- Q { fa_addr = n_of_hex p; fa_as = z_of_hex a } :: c.queries
@@ -87,13 +111,12 @@ let parse_case (line : string) : case =
   c.words <- Stdlib.List.rev c.words;
   c
 
-(* Coq triples are nested pairs after extraction *)
 let osys_of (c : case) : sys option =
   if not c.sysp then None else
   let maps = Array.map (function
     | None -> None
     | Some sets ->
-        (match SysEnv.build_map [] (Stdlib.List.map (fun (a, e, m) -> ((a, e), m)) sets) with
+        (match SysEnv.build_map [] sets with
          | Some m -> Some m
          | None -> failwith "map_set failed in the model")) c.maps in
   Some { s_map = (fun i -> let k = int_of_n i in if k < 5 then maps.(k) else None);
@@ -103,33 +126,37 @@ let show_fa (fa : fulladdr) = hex_of_z fa.fa_as ^ ":" ^ hex_of_n fa.fa_addr
 
 let lim = Some coq_MAX_OP_DEPTH
 let depth_budget = nat_of_int 40
+let wfuel = nat_of_int 24
 
-let run_query (c : case) (osys : sys option) (q : query) : string =
-  let mem = SysEnv.env_mem c.pages c.words c.failst in
-  let caps, opret, fa = match q with
-    | Q fa -> c.caps, (fun _ -> c.opret), fa
-    | V (fa, t) -> BinNat.N.shiftl (Npos Coq_xH) (match t with Zpos p -> Npos p | _ -> N0),
-                   (fun _ -> BinNums.Z0), fa in
-  let bad_target = match q with V (_, t) -> let k = int_of_z t in k < 0 || k > 63 | _ -> false in
-  if bad_target then "UB" else
-  match SysEnv.op_depth depth_budget Datatypes.O lim osys c.rcaps mem opret caps fa with
-  | (Done (st, calls), d) ->
-      let a = match q, calls with
-        | Q _, [] -> "-"
-        | V (fa, _), [] -> show_fa fa
-        | _, x :: _ -> show_fa x in
-      Printf.sprintf "st=%s n=%d a=%s d=%d" (hex_of_z st) (Stdlib.List.length calls) a (int_of_nat d)
-  | (NoFuel, _) -> "FUEL"
-  | (Undefined, _) -> "UB"
+let caps_of_query (c : case) = function
+  | Q fa -> c.caps, c.opret, fa
+  | V (fa, t) -> BinNat.N.shiftl (Npos Coq_xH) (match t with Zpos p -> Npos p | _ -> N0), BinNums.Z0, fa
 
 let run_case (line : string) : string =
   let c = parse_case line in
   let osys = osys_of c in
-  String.concat ";" (Stdlib.List.map (run_query c osys) c.queries)
+  let gp = SysEnv.env_gp c.pages c.words c.bigs c.failst in
+  let big = SysEnv.env_big c.bigs in
+  let backing = SysEnv.env_backing c.backing in
+  let cache = ref ReadCache.init_cache in
+  String.concat ";" (Stdlib.List.map (fun q ->
+    let caps, opret, fa = caps_of_query c q in
+    let bad_target = match q with V (_, t) -> let k = int_of_z t in k < 0 || k > 63 | _ -> false in
+    if bad_target then "UB" else
+    match SysEnv.op_depth lim osys c.rcaps gp big backing StepGlue.step_first StepGlue.step_next
+            StepGlue.step_ptesz wfuel depth_budget Datatypes.O (fun _ -> opret) caps fa !cache with
+    | ((Done (st, calls), d), c') ->
+        cache := c';
+        let a = match q, calls with
+          | Q _, [] -> "-"
+          | V (fa, _), [] -> show_fa fa
+          | _, x :: _ -> show_fa x in
+        Printf.sprintf "st=%s n=%d a=%s d=%d" (hex_of_z st) (Stdlib.List.length calls) a (int_of_nat d)
+    | ((NoFuel, _), _) -> "FUEL"
+    | ((Undefined, _), c') -> cache := c'; "UB") c.queries)
 
 (* ---- spec mode: judge the implementation's own answers ---- *)
 let parse_answer (s : string) =
-  (* st=<z> n=<k> a=<as>:<addr>|- d=<k> *)
   match words s with
   | [st; n; a; d] ->
       let v x = String.sub x (String.index x '=' + 1) (String.length x - String.index x '=' - 1) in
@@ -155,28 +182,29 @@ let spec_case (line : string) : string =
       (match osys_of c with
        | None -> "ok"       (* no system: nothing but pass-through, judged by the model tie *)
        | Some s ->
-      let mem = SysEnv.env_mem c.pages c.words c.failst in
+      let mem = mem_of (SysEnv.env_gp c.pages c.words c.bigs c.failst) (SysEnv.env_big c.bigs) in
       let answers = Stdlib.List.map String.trim (split_on ';' ans) in
       if Stdlib.List.length answers <> Stdlib.List.length c.queries then "answer count mismatch" else
       String.concat ";" (Stdlib.List.map2 (fun q a ->
         match parse_answer a with
         | None -> "unparsable: " ^ a
         | Some (st, n, fa, d) ->
-            let caps, opret, src = match q with
-              | Q fa0 -> c.caps, c.opret, fa0
-              | V (fa0, t) -> BinNat.N.shiftl (Npos Coq_xH) (match t with Zpos p -> Npos p | _ -> N0),
-                              BinNums.Z0, fa0 in
-            let calls = match q, n, fa with
-              | _, 0, _ -> []
-              | _, 1, Some x -> [x]
-              | _, k, Some x -> Stdlib.List.init k (fun _ -> x)
-              | _, _, None -> [] in
+            let caps, opret, src = caps_of_query c q in
+            let calls = match n, fa with
+              | 0, _ -> []
+              | 1, Some x -> [x]
+              | k, Some x -> Stdlib.List.init k (fun _ -> x)
+              | _, None -> [] in
             (* fulladdr_conv with no call must leave *faddr alone *)
             let conv_bad = match q, n, fa with
               | V (fa0, _), 0, Some x -> x <> fa0 | _ -> false in
             if conv_bad then "fulladdr_conv changed the address without a successful conversion" else
-            clause (int_of_n (SysSpec.judge s c.rcaps mem (nat_of_int (d + 1)) (nat_of_int 2)
-                                caps opret src st calls (nat_of_int d)))) c.queries answers))
+            if c.backing <> [] then
+              clause (int_of_n (SysSpec.judge_basic caps opret src st calls (nat_of_int d)))
+            else
+              clause (int_of_n (SysSpec.judge s c.rcaps mem StepGlue.step_first StepGlue.step_next
+                                  StepGlue.step_ptesz wfuel (nat_of_int (d + 1)) (nat_of_int 2)
+                                  caps opret src st calls (nat_of_int d)))) c.queries answers))
   | _ -> failwith "bad spec line"
 
 let engines = [ "sysop", run_case; "sysop-spec", spec_case ]
